@@ -299,6 +299,24 @@ func runC09(c *an.Ctx) {
 		n++
 		c.Check(mt.Of(r.Results[0]) == "p0", "C09.c", "small-quorum", "for one or two asked peers all of them must agree (minHeadResponses(n) = n for n ≤ 2)", minHead, r, "returns "+mt.Of(r.Results[0]), nil)
 	}
+	// for n ≥ 3: at least two thirds (3q ≥ 2n) and reachable (q ≤ n), proven with the division axioms of the prover
+	prBig := mf.Prune(an.GT("p0", "2"))
+	nBig := 0
+	for _, r := range prBig.Returns() {
+		nBig++
+		q := mt.Affine(r.Results[0])
+		n0 := an.Var("p0", false)
+		three := func(a *an.Affine) *an.Affine { return a.Add(a).Add(a) }
+		fs := append(an.FactSet{}, prBig.AtInstr(r)...)
+		if !fs.Has(an.GT("p0", "2")) {
+			fs = append(fs, an.GT("p0", "2"))
+		}
+		twoThirds := prBig.ProveGEFacts(fs, three(q), n0.Add(n0), 0)
+		reachable := prBig.ProveGEFacts(fs, three(n0), three(q), 0)
+		c.Check(twoThirds, "C09.c", "quorum-at-least-two-thirds", "for three or more asked peers the quorum q satisfies 3q ≥ 2n (at least two thirds), proven from the arithmetic of the returned expression", minHead, r, "q = "+mt.Of(r.Results[0]), fs)
+		c.Check(reachable, "C09.c", "quorum-reachable", "the quorum never exceeds the number of asked peers (q ≤ n)", minHead, r, "q = "+mt.Of(r.Results[0]), fs)
+	}
+	c.Min("C09.c", "quorum results for n ≥ 3", nBig, 1)
 	small := false
 	for _, f := range condFacts(mt) {
 		if f == an.LE("p0", "2") || f == an.GT("p0", "2") || f == an.LT("p0", "3") || f == an.GE("p0", "3") {
